@@ -13,7 +13,7 @@ func init() {
 		Text: "in the CSV reader every slice stored into an element of a per-column buffer table ([][]byte, [][]bytePointer) is that element's own previous value grown by append, or is rooted in an allocation made inside the same loop iteration: column buffers never share a backing array, so growing one cannot overwrite another",
 		Run:  runR49})
 	register(&Rule{ID: "R50", Name: "FILL-INDEPENDENT", Floor: 3,
-		Text: "in the CSV scanner every branch that compares a cursor with the number of buffered bytes (len of the read buffer) refills on the `no more buffered data` edge: that edge leads straight to a call that reaches io.Reader.Read before anything is decided; a decision taken on the fill level alone makes the parse depend on where read boundaries fall",
+		Text: "in the CSV scanner every branch that compares a cursor with the number of buffered bytes (len of the read buffer) refills on the `no more buffered data` edge: that edge leads straight to a call that reaches io.Reader.Read before anything is decided; a decision taken on the fill level alone makes the parse depend on where read boundaries fall; (c) after a refill the byte at the cursor is read only if the fill level was tested again or the refill repeats its Read until bytes arrive: a Read may legally return (0, nil)",
 		Run:  runR50})
 }
 
@@ -146,6 +146,59 @@ func reachesRead(fn *ssa.Function, seen map[*ssa.Function]bool) bool {
 	return found
 }
 
+// refillInsistsOnProgress: fn (or a module function it calls) calls Read inside a loop that compares the returned
+// count with 0 - it does not come back with (nothing read, no error).
+func refillInsistsOnProgress(fn *ssa.Function, d int) bool {
+	if fn == nil || fn.Blocks == nil || d > 2 {
+		return false
+	}
+	loops := loopsOf(fn)
+	ok := false
+	eachInstr(fn, func(in ssa.Instruction) {
+		call, isCall := in.(*ssa.Call)
+		if !isCall || ok {
+			return
+		}
+		cc := call.Common()
+		if cc.IsInvoke() && cc.Method.Name() == "Read" {
+			inL := false
+			for _, li := range loops {
+				if inLoop(li, call.Block()) {
+					inL = true
+				}
+			}
+			if !inL {
+				return
+			}
+			for _, r := range *call.Referrers() {
+				if ex, isEx := r.(*ssa.Extract); isEx && ex.Index == 0 {
+					for _, r2 := range *ex.Referrers() {
+						if b, isB := r2.(*ssa.BinOp); isB {
+							if k, isK := constInt(b.Y); isK && k == 0 {
+								ok = true
+							}
+						}
+						if ph, isPhi := r2.(*ssa.Phi); isPhi {
+							for _, r3 := range *ph.Referrers() {
+								if b, isB := r3.(*ssa.BinOp); isB {
+									if k, isK := constInt(b.Y); isK && k == 0 {
+										ok = true
+									}
+								}
+							}
+						}
+					}
+				}
+			}
+			return
+		}
+		if callee := cc.StaticCallee(); callee != nil && callee.Pkg != nil && inModule(callee.Pkg.Pkg) && refillInsistsOnProgress(callee, d+1) {
+			ok = true
+		}
+	})
+	return ok
+}
+
 func runR50(c *Ctx) {
 	p := c.P
 	br := p.Named("internal/fastcsv", "bufferedReader")
@@ -259,6 +312,46 @@ func runR50(c *Ctx) {
 			}
 			if refills {
 				c.ok(key, p.instrPos(iff), "the `nothing buffered` edge refills from the reader first")
+				// (c) a Read may legally deliver nothing without an error: after the refill either the fill level is
+				// tested again before the buffer is read, or the refill itself insists on progress
+				if _, isLookahead := other.(*ssa.BinOp); !isLookahead {
+					readsData := func(b *ssa.BasicBlock) bool {
+						if b == iff.Block() {
+							return false
+						}
+						for _, i2 := range b.Instrs {
+							switch a := i2.(type) {
+							case *ssa.IndexAddr:
+								if fld, _ := fieldOf(a.X); fld != nil && fld == dataFld {
+									return true
+								}
+							}
+						}
+						return false
+					}
+					retested := false
+					for _, s2 := range blk.Succs {
+						for _, rb := range reachableAvoiding(s2, readsData) {
+							if rb == iff.Block() {
+								retested = true
+							}
+						}
+					}
+					progress := false
+					for _, i2 := range blk.Instrs {
+						if call, ok := i2.(*ssa.Call); ok {
+							if callee := call.Call.StaticCallee(); callee != nil && refillInsistsOnProgress(callee, 0) {
+								progress = true
+							}
+						}
+					}
+					pkey := fname(fn) + "|refill delivers something"
+					if retested || progress {
+						c.ok(pkey, p.instrPos(iff), "after the refill the fill level is tested again, or the refill repeats the Read until bytes arrive")
+					} else {
+						c.bad(pkey, p.instrPos(iff), "after a single refill the byte at the cursor is read without testing the fill level again: a reader that returns (0, nil) once - legal for an io.Reader - makes the scanner index past the buffered data (index out of range) instead of reading on")
+					}
+				}
 			} else {
 				c.bad(key, p.instrPos(iff), "a decision is taken on how many bytes happen to be buffered without refilling: the parse of the same document differs depending on where the underlying reader's read boundaries fall")
 			}
